@@ -1138,4 +1138,37 @@ def r79t(F):
     return r
 
 
-RULES = [r14, r14v, r15, r16, r16m, r17, r17b, r79, r79t, c02.r8]
+def r79m(F):
+    from ..origins import Origins
+    r = RuleResult("R79m", "each file is formatted with its own comment map",
+                   "wherever the formatter parses a file with a comment map, that map was created empty in the same function (or cleared) "
+                   "before the parse: a map that lives longer than one file hands the comments of earlier files to the printer of later "
+                   "ones", floor=1)
+    n = 0
+    for name, fn in sorted(F.fns.items()):
+        if not name.startswith("ucg::") or fn.derived:
+            continue
+        o = None
+        for b, t in fn.calls():
+            if callee(t) != "ucglib::parse::parse" or len(t["args"]) < 2:
+                continue
+            a = t["args"][1]
+            if "const" in a:
+                continue            # None
+            o = o or Origins(fn)
+            labs = o.at(a, b)
+            if not any(l[0] == "agg" and l[2] == "Some" for l in labs) and not any(l[0] == "call" for l in labs):
+                continue
+            fresh = any(l[0] == "call" and l[1].endswith("BTreeMap::new") for l in labs)
+            outer = sorted({"field " + str(l[1]) for l in labs if l[0] == "field"} | {"parameter %d" % l[1] for l in labs if l[0] == "param" and l[1] != 1})
+            cleared = any(callee(t2).endswith("BTreeMap::clear") and cfg.dominates(fn, b2, b) for b2, t2 in fn.calls())
+            ok = (fresh and not outer) or cleared
+            n += 1
+            r.inst("%s:parse-with-map" % name.split("::")[-1], fn.where(b), ok,
+                   "the map is created empty here" if ok else
+                   "the comment map given to the parser comes from %s and is not cleared first: formatting several files in one run prints "
+                   "comments of earlier files into later ones" % (", ".join(outer) or "outside this call"))
+    return r
+
+
+RULES = [r14, r14v, r15, r16, r16m, r17, r17b, r79, r79t, r79m, c02.r8]
